@@ -40,6 +40,7 @@ type callGrant struct {
 }
 
 type sproxy struct {
+	nfault int
 	inner  scheduler.Repository
 	faulty *faultyRepo
 	calls  chan *callReq
@@ -54,6 +55,16 @@ func (p *sproxy) gate(kind, term string) (*callReq, callGrant) {
 }
 
 var errFault = errors.New("injected fault")
+
+// faultErr: what a failing repository call returns. Every other fault is the failure of a call whose context was
+// cancelled (a repository over a database reports exactly that); the scheduler must treat both alike.
+func (p *sproxy) faultErr() error {
+	p.nfault++
+	if p.nfault%2 == 0 {
+		return fmt.Errorf("injected fault: %w", context.Canceled)
+	}
+	return errFault
+}
 
 func resTerm(err error) string { return "(RRes " + cq.Err(err, isCtxErr) + ")" }
 
@@ -98,7 +109,7 @@ func (p *sproxy) GetById(ctx context.Context, id string) (def.Task, error) {
 	r, g := p.gate("getbyid", "(CGetById "+cq.Str(id)+")")
 	if g.fault != 0 {
 		r.done <- "(RRes (RErr EOther))"
-		return def.Task{}, errFault
+		return def.Task{}, p.faultErr()
 	}
 	t, err := p.inner.GetById(ctx, id)
 	if err != nil {
@@ -112,7 +123,7 @@ func (p *sproxy) GetNext(ctx context.Context) (def.Task, error) {
 	r, g := p.gate("getnext", "CGetNext")
 	if g.fault != 0 {
 		r.done <- "(RRes (RErr EOther))"
-		return def.Task{}, errFault
+		return def.Task{}, p.faultErr()
 	}
 	t, err := p.inner.GetNext(ctx)
 	if err != nil {
@@ -126,7 +137,7 @@ func (p *sproxy) MarkAsDispatched(ctx context.Context, id string) error {
 	r, g := p.gate("markdisp", "(CMarkDisp "+cq.Str(id)+")")
 	if g.fault == 1 {
 		r.done <- "(RRes (RErr EOther))"
-		return errFault
+		return p.faultErr()
 	}
 	if p.faulty != nil {
 		p.faulty.failNext = g.hfault
@@ -137,7 +148,7 @@ func (p *sproxy) MarkAsDispatched(ctx context.Context, id string) error {
 	}
 	if g.fault == 2 {
 		r.done <- "(RRes (RErr EOther))"
-		return errFault
+		return p.faultErr()
 	}
 	r.done <- resTerm(err)
 	return err
@@ -150,12 +161,12 @@ func (p *sproxy) MarkAsDone(ctx context.Context, id string, e error) error {
 	r, g := p.gate("markdone", "(CMarkDone "+cq.Str(id)+" "+es+")")
 	if g.fault == 1 {
 		r.done <- "(RRes (RErr EOther))"
-		return errFault
+		return p.faultErr()
 	}
 	err := p.inner.MarkAsDone(ctx, id, e)
 	if g.fault == 2 {
 		r.done <- "(RRes (RErr EOther))"
-		return errFault
+		return p.faultErr()
 	}
 	r.done <- resTerm(err)
 	return err
